@@ -10,8 +10,8 @@ CONSTANT MaxLen
 
 OV == {"x", "y", "z"}
 Ops == [op : {"new", "inc", "add", "total", "twice", "readn", "writen", "opn", "pushitems", "bumpvia", "setb", "inlist", "unwrap_reassign",
-              "label", "tagop"}, v : OV]
-       \cup [op : {"alias", "fork", "me", "is", "adopt", "read_op_inc", "share"}, v : OV, w : OV]
+              "label", "tagop", "subn", "divn", "dec", "fork_inc"}, v : OV]
+       \cup [op : {"alias", "fork", "me", "is", "adopt", "read_op_inc", "share", "pick_inc"}, v : OV, w : OV]
        \cup [op : {"pair_bump_a", "pair_read_b", "pair_b_inc", "outside", "finc", "ftotal", "fnew", "ffork"}]
 
 VARIABLE hist
@@ -34,6 +34,8 @@ Counter ==
                    Method("twice", <<>>, "int", <<ExprS(MCall(Self, "inc", <<>>)), Ret(MCall(Self, "inc", <<>>))>>),
                    Method("fork", <<>>, "Self", <<Ret(New("Self", <<SelfF("n")>>))>>),
                    Method("me", <<>>, "Self", <<Ret(Self)>>),
+                   Method("pick", <<P("other", "Self")>>, "Self", <<Ret(V("other"))>>),
+                   Method("dec", <<>>, "int", <<Assign(Fld(Self, "n"), "-", I(1)), Ret(SelfF("n"))>>),
                    Method("adopt", <<P("other", "Self")>>, "int", <<SetSelf("n", Bin("+", SelfF("n"), Fld(V("other"), "n"))),
                                                                      Assign(Fld(V("other"), "n"), "=", I(0)), Ret(SelfF("n"))>>),
                    Method("outside", <<>>, "int", <<Ret(Bin("+", V("made"), SelfF("n")))>>),
@@ -106,6 +108,13 @@ Stmts(o, k) ==
       [] o.op = "pair_b_inc" -> <<If(MCall(V("p"), "has_b", <<>>), <<Let("pb", Get(Fld(V("p"), "b"))), Print(MCall(V("pb"), "inc", <<>>))>>)>>
       [] o.op = "outside" -> <<Print(MCall(V("x"), "outside", <<>>))>>
       [] o.op = "read_op_inc" -> <<Print(Bin("-", Fld(V(o.v), "n"), MCall(V(o.w), "inc", <<>>))), Print(MCall(V(o.v), "bumpsum", <<>>))>>
+      \* non-commutative op-assignments on a field
+      [] o.op = "subn" -> <<Assign(Fld(V(o.v), "n"), "-", I(3))>>
+      [] o.op = "divn" -> <<Assign(Fld(V(o.v), "n"), "/", I(2))>>
+      [] o.op = "dec" -> <<Print(MCall(V(o.v), "dec", <<>>))>>
+      \* a call chained on the result of a method that returns Self: it runs on the object returned, not on the receiver
+      [] o.op = "fork_inc" -> <<Print(MCall(MCall(V(o.v), "fork", <<>>), "inc", <<>>))>>
+      [] o.op = "pick_inc" -> <<Print(MCall(MCall(V(o.v), "pick", <<V(o.w)>>), "inc", <<>>))>>
       [] o.op = "label" -> <<Print(MCall(V(o.v), "label", <<S("L" \o ToString(k))>>))>>
       [] o.op = "tagop" -> <<Assign(Fld(V(o.v), "tag"), "+", S("o" \o ToString(k)))>>
       [] o.op = "share" -> <<ExprS(MCall(V(o.v), "share", <<V(o.w)>>)), Print(Bin("is", Fld(V(o.v), "items"), Fld(V(o.w), "items")))>>
